@@ -112,28 +112,28 @@ def shift_hamiltonian(d, s, tau):
     return (h + h.conj().T) / 2
 
 
-def clock_system(mode, d, s1, s2, dt, start_time, energies=None, rot=None, calls=None):
-    """A real OQuPy system whose half-step propagators are cyclic shifts by s1 / s2
-    (optionally followed by the phase of a commuting diagonal Hamiltonian `energies`
-    when s1 = s2 = 0).  mode: 'static' (System), 'td' (TimeDependentSystem, piecewise
-    constant H(t)), 'direct' (System subclass returning the matrices)."""
+def clock_system(mode, d, s1, s2, dt, start_time, energies=None, rot=None, calls=None, shifts=None):
+    """A real OQuPy system whose half-step propagators are cyclic shifts (`shifts`: one per
+    successive half step, extended periodically; default <<s1, s2>>), optionally with the phase of a
+    commuting diagonal Hamiltonian `energies` when all shifts are 0.  mode: 'static' (System),
+    'td' (TimeDependentSystem, piecewise constant H(t))."""
     import oqupy
     v = np.eye(d) if rot is None else rot
     e = np.zeros(d) if energies is None else np.asarray(energies, float)
-    h1 = shift_hamiltonian(d, s1, dt / 2) + np.diag(e)
-    h2 = shift_hamiltonian(d, s2, dt / 2) + np.diag(e)
-    h1 = v @ h1 @ v.conj().T
-    h2 = v @ h2 @ v.conj().T
+    shifts = [s1, s2] if shifts is None else list(shifts)
+    hams = []
+    for s in shifts:
+        h = shift_hamiltonian(d, s, dt / 2) + np.diag(e)
+        hams.append(v @ h @ v.conj().T)
     if mode == "static":
-        assert s1 == s2
-        return oqupy.System(h1)
+        assert all(s == shifts[0] for s in shifts)
+        return oqupy.System(hams[0])
     if mode == "td":
         def ham(t):
             if calls is not None:
                 calls.append(float(t))
-            x = (t - start_time) / dt
-            frac = x - np.floor(x + 1e-12)
-            return h1 if frac < 0.5 else h2
+            half = int(np.floor((t - start_time) / (dt / 2) + 1e-9))
+            return hams[half % len(hams)]
         return oqupy.TimeDependentSystem(ham)
     raise ValueError(mode)
 
